@@ -144,7 +144,7 @@ func runTrieDB(k *kernel.K) {
 	s.cache = k.Bool(1, 2, "knob-cache")
 	s.errOnMissing = k.Bool(1, 3, "knob-missing-key-is-ErrNotFound")
 	s.useShimCommit = k.Bool(1, 3, "knob-commit-directly")
-	s.liveAtBranch = k.Bool(1, 8, "knob-live-get-at-valueless-branch")
+	s.liveAtBranch = knob(k, 1, 8, "live-get-at-valueless-branch")
 	if s.cache {
 		k.Probe("cache-on")
 	} else {
